@@ -387,3 +387,45 @@ VARIANTS += [
     V('G-rf-46', 'E', ALL, TH, 'Thread.run', r'if e\.code is None:\n(\s+)self\._future_\.set_result\(None\)\n\s+else:\n\s+if isinstance\(e\.code, int\):\n\s+if e\.code == 0:\n\s+self\._future_\.set_result\(None\)\n\s+else:\n\s+self\.handle_exception\(e\)\n\s+self\._future_\.set_exception\(e\)\n\s+else:\n\s+self\.handle_exception\(e\)\n\s+self\._future_\.set_exception\(e\)', r'if e.code is None or (isinstance(e.code, int) and e.code == 0):\n\1self._future_.set_result(None)\n            else:\n\1self.handle_exception(e)\n\1self._future_.set_exception(e)', note='SystemExit cases flattened'),
     V('G-rf-47', 'E', ALL, TH, 'Thread.join', r'if self\._future_\.exception\(\):\n(\s+)raise self\._future_\.exception\(\)', r'exc = self._future_.exception()\n        if exc:\n\1raise exc'),
 ]
+
+# ---------------------------------------------------------------------- refactor-level rewrites, third batch
+VARIANTS += [
+    V('G-rf-48', 'E', ALL, SO, 'write_record', r"writer\.write\(f'\{request_id\} \{len\(data_bytes\)\} \{encoder\}\\n'\.encode\(\)\)", lambda m: "header = f'{request_id} {len(data_bytes)} {encoder}\\n'\n    writer.write(header.encode())"),
+    V('G-rf-49', 'E', ALL, SO, 'write_record', r"writer\.write\(f'\{request_id\} \{len\(data_bytes\)\} \{encoder\}\\n'\.encode\(\)\)\n\s+writer\.write\(data_bytes\)", lambda m: "writer.write(f'{request_id} {len(data_bytes)} {encoder}\\n'.encode() + data_bytes)", note='header and payload in one write'),
+    V('G-rf-50', 'E', ALL, SO, 'SocketServer._handle_connection._keep_responding', r'req_id, t = await asyncio\.wait_for\(reqs\.get\(\), 0\.1\)', 'item = await asyncio.wait_for(reqs.get(), 0.1)\n                    req_id, t = item'),
+    V('G-rf-51', 'E', ALL, SO, 'SocketServer._handle_connection._keep_receiving', r'path = data\[0\]\n\s+data = data\[1\]', 'path, data = data'),
+    V('G-rf-52', 'E', ALL, SO, 'SocketClient._open_connections._keep_receiving', r'if isinstance\(data, BaseException\):\n(\s+)fut\.set_exception\(data\)\n(\s+)else:\n\s+fut\.set_result\(data\)', r'if not isinstance(data, BaseException):\n\1fut.set_result(data)\n\2else:\n\1fut.set_exception(data)'),
+    V('G-rf-53', 'E', ALL, CX, 'SpawnProcess.run', r'if e\.code is None:\n(\s+)result_and_error\.send\(None\)\n\s+result_and_error\.send\(None\)\n\s+else:\n\s+if isinstance\(e\.code, int\):\n\s+if e\.code == 0:\n\s+result_and_error\.send\(None\)\n\s+result_and_error\.send\(None\)\n\s+else:', r'if e.code is None or (isinstance(e.code, int) and e.code == 0):\n\1result_and_error.send(None)\n\1result_and_error.send(None)\n            else:\n                if isinstance(e.code, int):\n                    if False:\n                        pass\n                    else:', note='clean-exit cases merged'),
+    V('G-rf-55', 'E', ALL, CX, 'SpawnProcess.join', r'if self\._future_\.exception\(\):\n(\s+)raise self\._future_\.exception\(\)', r'exc = self._future_.exception()\n        if exc is not None:\n\1raise exc'),
+    V('G-rf-56', 'E', ALL, CX, 'SpawnProcess._collect_result', r'result, error = None, None\n', 'result = None\n        error = None\n'),
+    V('G-rf-57', 'E', ALL, PI, None, r'\n([ ]+)return ', r'\n\1# result of the call\n\1return ', count=0, flags=0),
+    V('G-rf-58', 'E', ALL, WK, 'Worker._start_batch.get_input', r'us = \[v\[0\] for v in batch\]\n(\s+)batch = \[v\[1\] for v in batch\]', r'us, batch = [v[0] for v in batch], [v[1] for v in batch]'),
+    V('G-rf-59', 'E', ALL, WK, 'Worker._start_batch', r'uids = q_uids\.get\(\)\n(\s+)if isinstance\(yy, Exception\):', r'failed = isinstance(yy, Exception)\n\1uids = q_uids.get()\n\1if failed:'),
+    V('G-rf-60', 'E', ALL, WK, 'Worker._build_input_batches', r'if buffer\.full\(\):\n(\s+)buffer\._not_full\.wait\(\)', r'while buffer.full():\n\1buffer._not_full.wait()', note='if -> while around the wait (stronger)'),
+    V('G-rf-61', 'E', ALL, TE, 'Fork.__next__', r'x = next\(self\.instream\)\n(\s+)box = TeeX\(x\)\n(\s+)self\.buffer\.put\(box\)\n\s+self\.head\.value = box', r'box = TeeX(next(self.instream))\n\2self.buffer.put(box)\n\2self.head.value = box'),
+    V('G-rf-62', 'E', ALL, SP, 'RebuildProxy', r"obj = func\(token, serializer, incref=incref, \*\*kwds\)", "kwds['incref'] = incref\n    obj = func(token, serializer, **kwds)"),
+    V('G-rf-64', 'E', ALL, ST, 'Parmapper.__init__', r"if concurrency is None:\n\s+concurrency = _NUM_THREADS if executor == 'thread' else _NUM_PROCESSES\n\s+self\._concurrency = concurrency", "self._concurrency = concurrency if concurrency is not None else (_NUM_THREADS if executor == 'thread' else _NUM_PROCESSES)", note='default folded into one expression (correctly parenthesised)'),
+    V('G-rf-63', 'E', ALL, SP, 'Server._callmethod', r"msg = \('#ERROR', self\._wrap_user_exc\(e\)\)\n\s+return msg", "return ('#ERROR', self._wrap_user_exc(e))"),
+]
+
+# ---------------------------------------------------------------------- rules added after the second seeding round (second batch)
+VARIANTS += [
+    V('C19-M20', 'M', ('C19',), ST, 'EagerBatcher.__iter__', r'(\n(\s+)t = deadline - time\.perf_counter\(\)\n)', r'\1\2if t <= 0:\n\2    break\n', ('C19-3',), note='seeded C19-r2m1 shape: deadline alone closes the batch'),
+    V('C09-M20', 'M', ('C09',), WK, 'Worker._get_input_batch', r'(\n(\s+)t = deadline - perf_counter\(\)\n)', r'\1\2if t <= 0:\n\2    break\n', ('C09-4',)),
+    V('C09-M21', 'M', ('C09',), WK, 'Worker.__init__', r'if batch_wait_time is None:\n\s+batch_wait_time = 0\.01', 'batch_wait_time = batch_wait_time or 0.01', ('C09-4',), note='seeded C09-r2m1 shape'),
+    V('C19-M21', 'M', ('C19',), ST, 'EagerBatcher.__init__', r'if batch_wait_time is None:\n(\s+)if batch_size > 1:\n\s+batch_wait_time = 60\n\s+else:\n\s+batch_wait_time = 0', r'if not batch_wait_time:\n\1batch_wait_time = 60 if batch_size > 1 else 0', ('C19-3',), note='spare idea of the C19 agent'),
+    V('C09-E20', 'E', ALL, WK, 'Worker.__init__', r'self\.batch_wait_time = batch_wait_time', 'self.batch_wait_time = batch_wait_time if batch_wait_time is not None else 0.01'),
+    V('C12-M20', 'M', ('C12',), TH, 'Thread.run', r'(\n(\s+))e\.__cause__ = type\(e\)\(tb\)', r'\1if e.__cause__ is None:\1    e.__cause__ = type(e)(tb)', ('C12-6',), note='seeded C12-r2m2 shape'),
+    V('C12-M21', 'M', ('C12',), CX, 'SpawnProcess.__init__', r'if kwargs is None:\n\s+kwargs = \{\}\n\s+else:\n\s+kwargs = dict\(kwargs\)', 'kwargs = kwargs or {}', ('C12-7',), note='seeded C12-r2m1 shape'),
+    V('C12-M22', 'M', ('C12',), CX, 'SpawnProcess.__init__', r'\n\s+else:\n\s+kwargs = dict\(kwargs\)', '', ('C12-7',)),
+    V('C12-E20', 'E', ALL, CX, 'SpawnProcess.__init__', r'if kwargs is None:\n\s+kwargs = \{\}\n\s+else:\n\s+kwargs = dict\(kwargs\)', 'kwargs = dict(kwargs or {})'),
+    V('C12-E21', 'E', ALL, CX, 'SpawnProcess.__init__', r'kwargs = dict\(kwargs\)', 'kwargs = {**kwargs}'),
+    V('C14-M22', 'M', ('C14',), SP, 'BaseProxy.__init__', r'get_server\(token\.address\)', 'get_server()', ('C14-7',), note='seeded C14-r2m2 shape'),
+    V('C14-M23', 'M', ('C14',), SP, 'get_server', r'if address is None or server\.address == address:', 'if address is None or server.address:', ('C14-7',)),
+    V('C15-M22', 'M', ('C15',), RE, 'is_remote_exception', r'isinstance\(e, BaseException\)', 'isinstance(e, Exception)', ('C15-4',), note='seeded C15-r2m1 shape'),
+    V('C15-M23', 'M', ('C15',), RE, 'RemoteException.__init__', r'traceback\.format_exception\(type\(exc\), exc, tb\)', 'traceback.format_exception(type(exc), exc, tb, chain=False)', ('C15-3',), note='seeded C15-r2m2 shape'),
+    V('C15-E21', 'E', ALL, RE, 'is_remote_exception', r'return isinstance\(e, BaseException\) and isinstance\(e\.__cause__, RemoteTraceback\)', 'return isinstance(e.__cause__, RemoteTraceback) and isinstance(e, BaseException)'),
+    V('C03-M21', 'M', ('C03', 'C01'), QS, 'SingleLane.get', r'with self\._not_empty:\n\s+if len\(self\._queue\) == 0:\n\s+if not block:\n\s+raise Empty\n\s+if not self\._not_empty\.wait\(timeout=timeout\):\n\s+raise Empty\n\s+z = self\._queue\.popleft\(\)\n\s+self\._not_full\.notify\(\)', 'if len(self._queue) == 0:\n            if not block:\n                raise Empty\n            with self._not_empty:\n                if not self._not_empty.wait(timeout=timeout):\n                    raise Empty\n        with self._not_full:\n            z = self._queue.popleft()\n            self._not_full.notify()', ('C03-8', 'C01-4'), note='seeded C03-r2m2 shape: emptiness tested before the lock'),
+    V('C03-M22', 'M', ('C03',), ST, 'Mapper.__iter__', r'func = self\.func\n\s+for v in self\._instream:\n\s+yield func\(v\)', 'yield from map(self.func, self._instream)', ('C03-2',), note='seeded C03-r2m1 shape'),
+    V('C09-M22', 'M', ('C09',), WK, 'Worker._start_single.get_input', r'(\n(\s+)q_uid\.put\(uid\)\n)', r'\n\2if preprocess is not None:\n\2    x = preprocess(x)\1', ('C09-1',), note='a value returned by preprocess reaches call unscreened'),
+]
